@@ -62,6 +62,10 @@ def model(drv, case, finished):
             'starts': [inv[int(x)] for x in starts.split(',') if x], 'rows': rows, 'hooks': hooks.split(), 'eff': eff.split()}
 
 
+# waiting times are multiplied by SCALE; a case that looks late is repeated alone with SCALE > 1 (see c04.evaluate)
+SCALE = 1.0
+
+
 def run_case(ctx, impl, drv, case):
     work = tempfile.mkdtemp(dir=ctx.mkscratch('orch'))
     cv = orch_env.Canvas(ctx, impl, work, [{'name': s['name'], 'parallel': s['parallel']} for s in case['steps']],
@@ -89,7 +93,7 @@ def run_case(ctx, impl, drv, case):
                 break
             want = m['starts']
             ok = orch_env.wait_for(lambda: [t[1] for t in cv.trace() if t[0] == 'start'] == want or
-                                   len([t for t in cv.trace() if t[0] == 'start']) > len(want), timeout=8)
+                                   len([t for t in cv.trace() if t[0] == 'start']) > len(want), timeout=8 * SCALE)
             got = [t[1] for t in cv.trace() if t[0] == 'start']
             if got == want:
                 # nothing more may start before the next completion: give an over-eager loop the time to show itself
@@ -129,11 +133,11 @@ def run_case(ctx, impl, drv, case):
             nxt = next(n for n in case['order'] if n in m['running'])
             cv.open_gate(nxt, codes[nxt])
             # the completion record and the hook of that step
-            orch_env.wait_for(lambda: any(h.startswith('hook %s ' % nxt) for h in cv.hooklog()), timeout=8)
+            orch_env.wait_for(lambda: any(h.startswith('hook %s ' % nxt) for h in cv.hooklog()), timeout=8 * SCALE)
             finished.append(nxt)
         ob['second'] = second
         try:
-            out, _ = proc.communicate(timeout=15)
+            out, _ = proc.communicate(timeout=15 * SCALE)
         except subprocess.TimeoutExpired:
             cv.kill_all(proc)
             out = b'(hung)'
@@ -141,7 +145,7 @@ def run_case(ctx, impl, drv, case):
         ob['rc'] = proc.returncode
         if case['detached']:
             # the detached loop runs in the background of a shell that has exited: wait for the lock to go
-            orch_env.wait_for(lambda: cv.lockfile() is None, timeout=10)
+            orch_env.wait_for(lambda: cv.lockfile() is None, timeout=10 * SCALE)
             time.sleep(0.05)
         ob['out'] = out.decode('latin1')[-600:]
         bds = [b for b in cv.builddirs() if older is None or b.endswith('.10')]
